@@ -120,10 +120,15 @@ def make_stub_classifier():
 _CACHE = {}
 
 
+CREATED = []   # every model handed out by the two factories below (C05 inspects them after a query)
+
+
 def StubClassifier(**kw):
     if "cls" not in _CACHE:
         _CACHE["cls"] = make_stub_classifier()
-    return _CACHE["cls"](**kw)
+    m = _CACHE["cls"](**kw)
+    CREATED.append(m)
+    return m
 
 
 def real_table_classifier(table, n_classes=2):
@@ -142,6 +147,7 @@ def real_table_classifier(table, n_classes=2):
 
         def fit(self, X, y, sample_weight=None):
             self.classes_ = np.arange(self.n_classes)
+            self.fit_count_ = getattr(self, "fit_count_", 0) + 1
             return self
 
         def predict_proba(self, X):
@@ -156,4 +162,6 @@ def real_table_classifier(table, n_classes=2):
         def predict(self, X):
             return np.arange(self.n_classes)[np.argmax(self.predict_proba(X), axis=1)]
 
-    return TableClassifier(table=table, n_classes=n_classes, classes=list(range(n_classes)))
+    m = TableClassifier(table=table, n_classes=n_classes, classes=list(range(n_classes)))
+    CREATED.append(m)
+    return m
